@@ -13,6 +13,16 @@ every earlier required-role set R0 of the universe an engine lives through two s
 disconnect; register again, uod-info with R, then disconnect or aggregator shutdown) and the unit listing (every
 parameter-less GET route that lists the unit for an authorised user) plus every GET route with a unit id is judged
 for the user U against the roles of the LATEST session, at four points (online 1, offline 1, online 2, offline 2).
+
+Engine life cycles (`_life_cycles`, LIFE_HISTORIES): in every shard engines live through histories built from the
+engine-facing events open (register, websocket, UodInfoMsg, steady-state round - the order engine_runner uses),
+run started, run stopped, disconnect and aggregator restart: a run in progress when the connection drops resp. when the
+aggregator restarts and resumed by the next session, reconnects between two runs, a first run after a reconnect; the
+first session requires R0 (every role set for the histories with a run spanning the sessions, else R and its
+complement), the second the shard's R. After every step every engine whose state changed is swept as U: every route
+with a unit / run id (all methods), every listing; rpc calls reaching the engine and changes of the unit state are
+observed. Oracle = the property's: required roles of the unit = its latest UodInfoMsg, of a recent run = those of its unit
+when it ended.
 """
 from __future__ import annotations
 
@@ -48,7 +58,17 @@ RULE = ("every route discovered from app.routes at run time (HTTP routes with a 
         "/ offline 2 against R), every GET route with a unit id is requested for the offline unit at the end; so all "
         "(R0, R1, U) triples over the universe are enumerated. distinct = (method, route, R, U, world) resp. (route, "
         "R0, R1, U, point, ending); non-trivial = R is non-empty resp. R0 != R1 (a role "
-        "decision is actually taken). Seed varies sentinel strings, role names, ids and route order only.")
+        "decision is actually taken). Engine life cycles: 5 histories over 8 global steps (run in progress at a websocket "
+        "disconnect / at an aggregator restart and resumed by the next session; run completed, then disconnect / restart, "
+        "second session with a second run; idle first session, run in the second) x first-session role set R0 (all "
+        "role sets of the universe for the two histories whose run spans the sessions, {R, universe minus R} for the "
+        "others), second session requires R; after every step every engine that had an event (one per identical "
+        "history prefix) is swept as U over every route with a unit/run id (all methods while online; run routes and "
+        "GET unit routes while offline; run routes for every stored run and the run in progress) and over every "
+        "parameter-less GET route (entries of a JSON list answer attributed to the unit / stored run they name); a "
+        "denied request is paired with one control by a holder of the required roles per (route, stage, subject, "
+        "role set) and the answer for a non-existent id. distinct = (method, route, history, R0, R, U, stage, "
+        "subject). Seed varies sentinel strings, role names, ids and route order only.")
 ASSUMPTIONS = [
     "roles reach the handlers only through the FastAPI dependencies auth.user_roles/user_id/user_name (overridden by the "
     "harness); token decoding (Azure JWT) is outside this check",
@@ -66,13 +86,35 @@ ASSUMPTIONS = [
     "session that ends before it sent a UodInfoMsg (not generated)",
     "an aggregator restart is emulated by Aggregator.shutdown() followed by emptying the engine-data and channel maps "
     "in place; the database file is kept",
+    "a recent run requires the roles its unit required (latest UodInfoMsg) when the run ended; for a run that started in "
+    "one session and ended in the next one with different roles the property text does not say which set counts: only "
+    "users for whom both sets give the same answer are judged on that run (the unit itself is judged by its latest "
+    "UodInfoMsg throughout)",
+    "engine sessions are driven at the message level (REST registration, mock rpc channel, dispatch_message) in the "
+    "order engine_runner posts them (register, UodInfoMsg, MethodMsg, tags, control/method state, error log, run log); "
+    "no real engine process, no message buffering during the outage",
 ]
 REQUIRED = {"denied_checks": 150, "authorised_ok": 300, "listing_checks": 20, "rpc_seen_on_control": 10,
             "ws_denied_checks": 5, "ws_authorised_ok": 5, "id_routes_discovered": 16 * 20,
             "two_session_engines": 16 * 8, "two_session_offline_denied_checks": 60,
             "two_session_offline_authorised_listed": 100, "two_session_tightened_offline_denied_checks": 18,
             "two_session_relaxed_offline_authorised_listed": 18, "two_session_after_shutdown_checks": 64,
-            "two_session_offline_id_route_requests": 16 * 8 * 10}
+            "two_session_offline_id_route_requests": 16 * 8 * 10,
+            # engine life cycles (quick: 16 shards x 14 engines)
+            "life_engines": 16 * 14, "life_restarts": 16, "life_sweeps": 800,
+            "life_s2_resumed_run_after_disconnect_unit_denied_checks": 200,
+            "life_s2_resumed_run_after_restart_unit_denied_checks": 200,
+            "life_s2_resumed_run_after_disconnect_unit_authorised_ok": 450,
+            "life_s2_resumed_run_after_restart_unit_authorised_ok": 450,
+            "life_s2_resumed_run_after_disconnect_unit_rpc_seen_on_control": 40,
+            "life_s2_resumed_run_after_restart_unit_rpc_seen_on_control": 40,
+            "life_s2_stopped_resumed_run_run_resumed_denied_checks": 100,
+            "life_s2_stopped_resumed_run_run_resumed_authorised_ok": 350,
+            "life_s2_running_unit_denied_checks": 300, "life_s2_stopped_run_denied_checks": 200,
+            "life_listing_unit_s2_resumed_run_after_disconnect_denied_checks": 20,
+            "life_listing_unit_s2_resumed_run_after_restart_denied_checks": 20,
+            "life_listing_run_resumed_denied_checks": 40, "life_listing_run_resumed_authorised_listed": 130,
+            "life_listing_unit_off1_midrun_denied_checks": 10, "life_listing_unit_off1_midrun_restart_denied_checks": 10}
 EXHAUSTIVE_ALL = True
 
 ID_PARAM = re.compile(r"(unit|engine|run)", re.I)
@@ -323,6 +365,106 @@ class Rig:
         if self.srv.aggregator.get_registered_engine_data(eid) is not None:
             raise RuntimeError("rig: engine did not go offline")
 
+    # ---- engine life cycles (one engine id, several sessions, runs that may span sessions)
+    def life_open(self, key: str, roles: set[str], S: Sent, session_no: int, live_run: str | None):
+        """One connection of an engine, in the order engine_runner uses: register (REST), websocket (mock channel whose
+        dispatch_message_async records what reaches the engine), UodInfoMsg(required_roles=roles), then what the
+        catch-up / steady-state loop posts (MethodMsg, tags, control state, method state and - while a run is in
+        progress on the engine - the run log of that run). Deliberately does NOT look at the role state the
+        aggregator derived: that is what the sweep judges through the routes."""
+        from unittest.mock import Mock, AsyncMock
+        from fastapi_websocket_rpc.schemas import RpcResponse
+        import openpectus.protocol.engine_messages as EM
+        import openpectus.protocol.aggregator_messages as AM
+        import openpectus.protocol.models as PM
+        from openpectus.protocol.serialization import serialize
+        from openpectus.protocol.dispatch_interface import AGGREGATOR_REST_PATH
+        from openpectus import __version__
+        reg = EM.RegisterEngineMsg(computer_name=f"opvlife{key}x{S.tok}", uod_name=f"opvuod{key}",
+                                   uod_author_name=S(f"AUTHOR{key}S{session_no}"), uod_author_email=S("EMAIL"),
+                                   uod_filename=S("UODFILE"), location=S(f"LOC{key}S{session_no}"),
+                                   engine_version=__version__)
+        r = self.client.post(AGGREGATOR_REST_PATH, json=serialize(reg))
+        if r.status_code != 200 or not r.json().get("success"):
+            raise RuntimeError(f"rig: engine registration failed: {r.status_code} {r.text[:200]}")
+        eid = r.json()["engine_id"]
+        ok = json.dumps(serialize(AM.SuccessMessage()))
+
+        async def _rpc(message_json=None, **kw):
+            self.rpc_calls.append((eid, (message_json or {}).get("_type")))
+            return RpcResponse[str](result=ok, result_type=None)
+
+        ch = Mock(close=AsyncMock(), other=Mock(
+            get_engine_id_async=AsyncMock(return_value=RpcResponse[str | None](result=eid, result_type=None)),
+            dispatch_message_async=AsyncMock(side_effect=_rpc)))
+        self.client.portal.call(self.srv.dispatcher._on_delayed_client_connect, ch)
+        if not self.srv.dispatcher.has_connected_engine_id(eid):
+            raise RuntimeError("rig: mock rpc channel was not accepted")
+        tagS, cmd = S("TAGSTR"), S("UODCMD")
+        sysc = [PM.CommandDefinition(name=nm, validator=None, docstring=None)
+                for nm in ("Watch", "Alarm", "Mark", "Block", "End block", "Stop", "Pause")]
+        self._dispatch(EM.UodInfoMsg(
+            engine_id=eid,
+            readings=[PM.ReadingInfo(discriminator="reading", tag_name=tagS, valid_value_units=None,
+                                     entry_data_type=None, commands=[], command_options=None)],
+            commands=[PM.CommandInfo(name=cmd, docstring=S("DOCSTRING"))],
+            uod_definition=PM.UodDefinition(
+                commands=[PM.CommandDefinition(name=cmd, validator=None, docstring=S("DOCSTRING"))],
+                system_commands=sysc, tags=[PM.TagDefinition(name=tagS)]),
+            plot_configuration=PM.PlotConfiguration(
+                process_value_names_to_annotate=[tagS], x_axis_process_value_names=[tagS], color_regions=[],
+                sub_plots=[PM.SubPlot(axes=[PM.PlotAxis(label=S("AXIS"), process_value_names=[tagS], y_max=10, y_min=0,
+                                                        color="#00ff00")], ratio=1)]),
+            hardware_str=S(f"HW{key}"), required_roles=set(roles), data_log_interval_seconds=0.5))
+        lines = [PM.MethodLine(id=f"lf{key}a", content=f"Mark: {S('METHODLINE')}"), PM.MethodLine(id=f"lf{key}b", content="")]
+        self._dispatch(EM.MethodMsg(engine_id=eid, method=PM.Method(version=0, lines=lines)))
+        self.life_feed(eid, key, S, live_run, 1000.0 * session_no)
+        if self.srv.aggregator.get_registered_engine_data(eid) is None:
+            raise RuntimeError("rig: life-cycle engine data missing")
+        return eid, ch
+
+    def life_feed(self, eid: str, key: str, S: Sent, run_id: str | None, t: float):
+        """one round of the steady-state loop: tags, control state, method state, error log, run log of the live run"""
+        import openpectus.protocol.engine_messages as EM
+        import openpectus.protocol.models as PM
+        self._dispatch(EM.TagsUpdatedMsg(engine_id=eid, run_id=run_id, tags=[
+            PM.TagValue(name=S("TAGSTR"), tick_time=t, value=S("VALUE"), value_unit=None, value_formatted=S("FORMATTED")),
+            PM.TagValue(name="System State", tick_time=t, value="Running" if run_id else "Stopped", value_unit=None),
+            PM.TagValue(name="Run Time", tick_time=t, value=1.0, value_unit="s")]))
+        self._dispatch(EM.ControlStateMsg(engine_id=eid, control_state=PM.ControlState(
+            is_running=bool(run_id), is_holding=False, is_paused=False)))
+        self._dispatch(EM.MethodStateMsg(engine_id=eid, method_state=PM.MethodState(
+            started_line_ids=[f"lf{key}a"] if run_id else [], executed_line_ids=[], injected_line_ids=[],
+            failed_line_ids=[])))
+        self._dispatch(EM.ErrorLogMsg(engine_id=eid, log=PM.ErrorLog(entries=[
+            PM.ErrorLogEntry(message=S("ERRORMSG"), created_time=t, severity=40)])))
+        if run_id:
+            self._dispatch(EM.RunLogMsg(engine_id=eid, id=f"rl{key}", run_id=run_id, runlog=self.life_runlog(key, S, t)))
+
+    @staticmethod
+    def life_runlog(key: str, S: Sent, t: float):
+        import openpectus.protocol.models as PM
+        return PM.RunLog(lines=[PM.RunLogLine(
+            id=f"opvlifeline{key}", command_name=S("RUNLOGCMD"), start=t, end=None, progress=0.5,
+            start_values=[PM.TagValue(name=S("TAGSTR"), tick_time=t, value=S("VALUE"), value_unit=None)], end_values=[],
+            forcible=True, cancellable=True)])
+
+    def life_run_started(self, eid: str, key: str, S: Sent, run_id: str, t: float):
+        import openpectus.protocol.engine_messages as EM
+        self._dispatch(EM.RunStartedMsg(engine_id=eid, run_id=run_id, started_tick=t))
+        self.life_feed(eid, key, S, run_id, t + 1.0)
+        self.life_feed(eid, key, S, run_id, t + 2.0)
+
+    def life_run_stopped(self, eid: str, key: str, S: Sent, run_id: str, t: float):
+        import openpectus.protocol.engine_messages as EM
+        import openpectus.protocol.models as PM
+        self._dispatch(EM.RunStoppedMsg(
+            engine_id=eid, run_id=run_id, runlog=self.life_runlog(key, S, t),
+            method_state=PM.MethodState(started_line_ids=[f"lf{key}a"], executed_line_ids=[], injected_line_ids=[],
+                                        failed_line_ids=[]),
+            archive=S("ARCHIVECONTENT"), archive_filename=S("ARCHIVEFILE") + ".zip"))
+        self.life_feed(eid, key, S, None, t + 1.0)
+
     def restart_aggregator(self):
         """Aggregator.shutdown() (what the server's lifespan runs), then the process is 'gone': the in-memory maps are
         emptied in place, the database stays."""
@@ -527,6 +669,9 @@ def run_shard(spec):
         f"all HTTP routes discovered from app.routes with a unit/engine/run path parameter, all parameter-less GET "
         f"routes, and the /api/lsp websocket routes x all required-role sets R and user-role sets U over the role "
         f"universe {spec['universe']} ({4 ** len(spec['universe'])} (R,U) pairs) x 2 worlds (active run / no active run)")
+    res.exhaustive_parts.append(
+        f"engine life cycles {sorted(LIFE_HISTORIES)} x first-session role sets (all for {list(LIFE_FULL_R0)}, R and its "
+        f"complement otherwise) x all (R,U) pairs, swept over all id routes and listings after every step")
     return res
 
 
@@ -766,6 +911,9 @@ def _run(rig: Rig, res: Result, only=None):
                     res.count("ws_authorised_incomplete")
                     inconclusive_routes[f"WS {route.path} [{wname}]"] = f"authorised conversation returned data only in {leaks}"
     # ------------------------------------------------------------------ two sessions of one engine id, roles changed
+    # ------------------------------------------------------------------ engine life cycles, swept at every stage
+    if not only or list(only)[0] == "LIFE":
+        _life_cycles(rig, res, spec_case, plain_get, order, fake, classify, only)
     if not only or list(only)[0] == "SESSIONS":
         _two_sessions(rig, res, spec_case, plain_get, id_routes, fake, only)
 
@@ -784,6 +932,304 @@ def _run(rig: Rig, res: Result, only=None):
 
 def _access(required: set, user: set) -> bool:
     return not required or bool(required & user)
+
+
+# Engine life-cycle histories. One column per global step; every engine of a history performs its event of the step,
+# then (step LIFE_RESTART_STEP only) the aggregator is restarted, then every engine that had an event is swept.
+#   open       register + websocket + UodInfoMsg + first steady-state round (session 1 requires R0, session 2 the shard's R)
+#   start/stop RunStartedMsg / RunStoppedMsg (+ steady-state rounds)
+#   disconnect the websocket of the engine drops
+#   restart    the engine is still connected (and possibly in a run) when the aggregator goes down
+LIFE_HISTORIES = {
+    "midrun_disconnect":  ["open", "start", None,   "disconnect", "open", "stop",  None,   "disconnect"],
+    "midrun_restart":     ["open", "start", None,   "restart",    "open", "stop",  None,   "disconnect"],
+    "between_disconnect": ["open", "start", "stop", "disconnect", "open", "start", "stop", "disconnect"],
+    "between_restart":    ["open", "start", "stop", "restart",    "open", "start", "stop", "disconnect"],
+    "idle_disconnect":    ["open", None,    None,   "disconnect", "open", "start", "stop", "disconnect"],
+}
+LIFE_RESTART_STEP = 3
+LIFE_FULL_R0 = ("midrun_disconnect", "midrun_restart")
+
+
+def _items(text: str) -> list[str]:
+    """the elements of a JSON list answer, each re-serialised; any other answer is one item"""
+    try:
+        v = json.loads(text)
+    except ValueError:
+        return [text]
+    if isinstance(v, list):
+        return [json.dumps(x, sort_keys=True) for x in v]
+    return [text]
+
+
+def _life_cycles(rig: Rig, res: Result, spec_case, plain_get, id_routes, fake, classify, only=None):
+    """Engines live through LIFE_HISTORIES x every role set R0 of the universe for the first session (the second
+    session requires the shard's R, so 'unchanged' is the case R0 == R). After every step every engine whose state
+    changed is swept: all routes with a unit / run id and all listings, as the shard's user U, judged against the roles
+    of the latest UodInfoMsg of the unit resp. the roles the unit required when the run stopped."""
+    U, R1 = rig.U, rig.R
+    S3 = Sent(rig.rnd, prefix="OPVLIFE")
+    only_path = list(only)[1] if only and len(list(only)) > 1 else None
+    engines = []
+    universe = rig.spec["universe"]
+    for hist, events in LIFE_HISTORIES.items():
+        # a run in progress across the sessions: every R0; otherwise roles unchanged (R0 == R) and the complement of R
+        # (the full R0 x R x U cube without runs is what the two-session scenarios enumerate)
+        r0s = _subsets(universe) if hist in LIFE_FULL_R0 else [list(rig.spec["R"]),
+                                                              [r for r in universe if r not in rig.spec["R"]]]
+        for r0 in r0s:
+            key = f"c{len(engines)}e"
+            engines.append({"key": key, "hist": hist, "events": events, "r0": r0,
+                            "R0": {rig.role_name[r] for r in r0}, "eid": None, "ch": None, "session": 0,
+                            "online": False, "live_run": None, "resumed": False, "runs": [], "unit_roles": set(),
+                            "trace": [], "label": "new", "n_runs": 0, "ended_by": None})
+            res.count("life_engines")
+    n_steps = len(next(iter(LIFE_HISTORIES.values())))
+    none_cache: dict = {}
+    control_cache: dict = {}
+    all_ids = [fake["unit"], fake["run"]]
+
+    def apply(e, ev, step):
+        key, t = e["key"], 10000.0 * (step + 1)
+        if ev == "open":
+            e["session"] += 1
+            roles = e["R0"] if e["session"] == 1 else R1
+            e["eid"], e["ch"] = rig.life_open(key, roles, S3, e["session"], e["live_run"])
+            if e["eid"] not in all_ids:
+                all_ids.append(e["eid"])
+            e["unit_roles"], e["online"] = set(roles), True
+            e["resumed"] = e["live_run"] is not None
+            e["label"] = f"s{e['session']}_" + ("resumed_run" if e["resumed"] else "idle") + \
+                (f"_after_{e['ended_by']}" if e["session"] > 1 else "")
+            e["trace"].append((ev, tuple(sorted(roles))))
+        elif ev == "start":
+            e["n_runs"] += 1
+            e["live_run"] = f"opvliferun{key}n{e['n_runs']}x{S3.tok}"
+            all_ids.append(e["live_run"])
+            rig.life_run_started(e["eid"], key, S3, e["live_run"], t)
+            e["resumed"] = False
+            e["label"] = f"s{e['session']}_running"
+            e["trace"].append((ev,))
+        elif ev == "stop":
+            rig.life_run_stopped(e["eid"], key, S3, e["live_run"], t)
+            # a recent run requires what its unit required when the run ended
+            # (if the roles changed between the session in which it started and the one in which it ended, the property
+            # text does not say which of the two sets it requires: only users for whom both agree are judged)
+            e["runs"].append({"run_id": e["live_run"], "roles": set(e["unit_roles"]), "resumed": e["resumed"],
+                              "alt": set(e["R0"]) if e["resumed"] and e["R0"] != e["unit_roles"] else None})
+            e["label"] = f"s{e['session']}_stopped" + ("_resumed_run" if e["resumed"] else "")
+            e["live_run"], e["resumed"] = None, False
+            e["trace"].append((ev,))
+        elif ev in ("disconnect", "restart"):
+            if ev == "disconnect":
+                rig.close_session(e["eid"], e["ch"])
+            e["online"], e["ended_by"] = False, ev
+            e["label"] = f"off{e['session']}_" + ("midrun" if e["live_run"] else "idle") + ("_restart" if ev == "restart" else "")
+            e["trace"].append((ev,))
+
+    def sweep(e):
+        label, eid = e["label"], e["eid"]
+        w = {"engine_id": eid}
+        for route in id_routes:
+            if only_path and route.path != only_path:
+                continue
+            is_run = any(ID_PARAM.search(p.name) and ID_PARAM.search(p.name).group(1).lower() == "run"
+                         for p in route.dependant.path_params)
+            if is_run:
+                # every stored run of the engine, and the run in progress (not a recent run yet: nobody is served)
+                subjects = []
+                for r in e["runs"]:
+                    if r["alt"] is not None and _access(r["alt"], U) != _access(r["roles"], U):
+                        res.count("life_run_spanning_a_role_change_not_judged")
+                        continue
+                    subjects.append((r["run_id"], r["roles"], "run_resumed" if r["resumed"] else "run"))
+                if e["live_run"]:
+                    subjects.append((e["live_run"], e["unit_roles"], "run_in_progress"))
+            else:
+                subjects = [(None, e["unit_roles"], "unit")]
+            for method in sorted(route.methods - {"HEAD", "OPTIONS"}):
+                if not is_run and not e["online"] and method != "GET":
+                    continue      # an offline unit has no channel and no state a request could change; reads are swept
+                for run_id, required, kind in subjects:
+                    ids = {"unit": eid, "run": run_id or fake["run"]}
+                    url = build_url(route, ids, f"opvlifeline{e['key']}")
+                    params = build_params(route, rig)
+                    allowed = _access(required, U)
+                    cname = f"life_{label}_{kind}"
+                    case = {"spec": spec_case, "only": ["LIFE", route.path], "world": f"{e['hist']}:{label}"}
+                    before = rig.snapshot(w) if e["online"] else None
+                    rig.rpc_calls.clear()
+                    status, text = rig.request(U, method, url, params, build_body(route, rig, w))
+                    rpc_types = [t for _, t in rig.rpc_calls]
+                    mutated = e["online"] and rig.snapshot(w) != before
+                    res.case(("LIFE", method, route.path, e["hist"], tuple(e["r0"]), tuple(rig.spec["R"]),
+                              tuple(rig.spec["U"]), label, kind) if required else None,
+                             sample={"route": f"{method} {route.path}", "history": e["hist"], "stage": label,
+                                     "subject": kind, "R0": sorted(e["R0"]), "R": sorted(R1), "required": sorted(required),
+                                     "U": sorted(U), "status": status})
+                    where = (f"{method} {route.path} [life cycle {e['hist']}, stage {label}, {kind} "
+                             f"{run_id or eid}; session roles {sorted(e['R0'])} -> {sorted(R1)}]")
+                    if allowed:
+                        if status in REFUSED:
+                            res.violation("C32.authorised_user_refused",
+                                          f"{where}: user roles {sorted(U)} vs required {sorted(required)} got {status} "
+                                          f"{text[:200]}", case)
+                        elif 200 <= status < 300:
+                            res.count(cname + "_authorised_ok")
+                            if rpc_types:
+                                res.count(cname + "_authorised_rpc_seen")
+                        else:
+                            res.count(cname + "_authorised_non_2xx")
+                        continue
+                    # denied: control by a user holding exactly the required roles. It proves that the request is well
+                    # formed for a unit / run in this state, so one control per (route, stage, subject kind,
+                    # required roles) is made, against the first engine swept in that state (the served half of the
+                    # property is judged per engine by the shards whose U holds a role)
+                    ck = (method, route.path, label, kind, tuple(sorted(required)))
+                    if ck not in control_cache or not has_dep(route, rig.auth.user_roles):
+                        # (a route without the roles dependency is classified by comparing with the answer the
+                        # authorised user gets for the very same unit: always a control of its own)
+                        rig.rpc_calls.clear()
+                        control_cache[ck] = rig.request(required, method, url, params, build_body(route, rig, w)) + \
+                            (len(rig.rpc_calls),)
+                        rig.rpc_calls.clear()
+                        res.count("life_control_requests")
+                    c_status, c_text, c_rpc = control_cache[ck]
+                    if c_rpc:
+                        res.count(cname + "_rpc_seen_on_control")
+                    nk = (method, route.path)
+                    if nk not in none_cache:
+                        none_cache[nk] = rig.request(U, method, build_url(route, fake, "opvline"), params,
+                                                     build_body(route, rig, None))
+                    n_status, n_text = none_cache[nk]
+                    if c_status in REFUSED:
+                        res.violation("C32.authorised_user_refused",
+                                      f"{where}: user holding exactly the required roles {sorted(required)} got {c_status} "
+                                      f"{c_text[:200]}", case)
+                    if 200 <= c_status < 300:
+                        res.count(cname + "_denied_checks")
+                    else:
+                        res.count(cname + "_denied_checks_without_successful_control")
+                    leak = S3.mark in text
+                    refused = status in REFUSED
+                    same_as_none = (status, _norm(text, all_ids)) == (n_status, _norm(n_text, all_ids))
+                    if refused:
+                        res.count("life_denied_refused_401_403")
+                    elif same_as_none:
+                        res.count("life_denied_same_as_nonexistent")
+                    mech = classify(route, (status, text) == (c_status, c_text))
+                    if leak:
+                        found = sorted(set(re.findall(re.escape(S3.mark) + r"[A-Za-z0-9]+", text)))[:6]
+                        res.violation(mech, f"{where}: user roles {sorted(U)} vs required {sorted(required)} got {status} "
+                                      f"with data {found}", case)
+                    elif not refused and not same_as_none:
+                        if 200 <= status < 300:
+                            res.violation(mech, f"{where}: user roles {sorted(U)} vs required {sorted(required)} got "
+                                          f"{status} {text[:160]!r}, neither a refusal nor the answer for a non-existent "
+                                          f"id ({n_status} {n_text[:120]!r})", case)
+                        else:
+                            res.count("life_denied_error_status_not_a_refusal_ambiguous")
+                    if rpc_types:
+                        res.violation("C32.rpc_reached_engine_for_denied_user",
+                                      f"{where}: {rpc_types} reached the engine channel for user roles {sorted(U)} vs "
+                                      f"required {sorted(required)} (status {status})", case)
+                    if mutated:
+                        res.violation("C32.denied_request_changed_unit_state",
+                                      f"{where}: method/active users/contributors of the unit changed for user roles "
+                                      f"{sorted(U)} vs required {sorted(required)} (status {status})", case)
+
+    def listings(step):
+        subjects = []          # (id, required roles, kind, label, engine)
+        for e in engines:
+            if e["eid"] is None:
+                continue
+            subjects.append((e["eid"], e["unit_roles"], "unit", e["label"], e))
+            for r in e["runs"]:
+                if r["alt"] is not None and _access(r["alt"], U) != _access(r["roles"], U):
+                    res.count("life_run_spanning_a_role_change_not_judged")
+                    continue
+                subjects.append((r["run_id"], r["roles"], "run", "run_resumed" if r["resumed"] else "run", e))
+        run_ids = [r["run_id"] for e in engines for r in e["runs"]]
+
+        def about(item: str, sid: str, kind: str) -> bool:
+            if sid not in item:
+                return False
+            # an entry that names a stored run is an entry of that run (it also carries the id of the run's unit)
+            return kind == "run" or not any(r in item for r in run_ids)
+
+        for route in plain_get:
+            if only_path and route.path != only_path:
+                continue
+            params = build_params(route, rig)
+            status, text = rig.request(U, "GET", route.path, params)
+            u_items = _items(text)
+            controls: dict = {}
+            case = {"spec": spec_case, "only": ["LIFE", route.path], "world": f"step{step}"}
+            for sid, required, kind, label, e in subjects:
+                ck = tuple(sorted(required))
+                if ck not in controls:
+                    controls[ck] = _items(rig.request(required, "GET", route.path, params)[1])
+                if not any(about(it, sid, kind) for it in controls[ck]):
+                    continue          # the route does not list this unit / run for a user holding its roles
+                present = [it for it in u_items if about(it, sid, kind)]
+                allowed = _access(required, U)
+                res.case(("LIFE", "GET", route.path, e["hist"], tuple(e["r0"]), tuple(rig.spec["R"]), tuple(rig.spec["U"]),
+                          label, kind, step) if required else None,
+                         sample={"route": "GET " + route.path, "history": e["hist"], "stage": label, "listing_of": kind,
+                                 "required": sorted(required), "U": sorted(U), "listed": bool(present)})
+                cname = f"life_listing_{kind}_{label}" if kind == "unit" else f"life_listing_{label}"
+                where = (f"GET {route.path} [life cycle {e['hist']}, step {step}, {kind} {sid} in state {label}; session "
+                         f"roles {sorted(e['R0'])} -> {sorted(R1)}]")
+                if allowed:
+                    if present:
+                        res.count(cname + "_authorised_listed")
+                    else:
+                        res.violation("C32.listing_omits_authorised_unit_or_run",
+                                      f"{where}: requires {sorted(required)}, listed for a user holding these roles but "
+                                      f"not for user roles {sorted(U)}", case)
+                else:
+                    res.count(cname + "_denied_checks")
+                    if present:
+                        res.violation("C32.listing_includes_denied_run" if kind == "run" else
+                                      "C32.listing_includes_denied_unit",
+                                      f"{where}: requires {sorted(required)} but is returned to user roles {sorted(U)}: "
+                                      f"{present[0][:200]}", case)
+            # nothing of an engine the user is denied for altogether (unit and all of its runs) may appear anywhere
+            for e in engines:
+                if e["eid"] is None or _access(e["unit_roles"], U) or \
+                        any(_access(r["roles"], U) or (r["alt"] is not None and _access(r["alt"], U)) for r in e["runs"]):
+                    continue
+                marks = [e["eid"], S3(f"LOC{e['key']}S"), S3(f"AUTHOR{e['key']}S"), S3(f"HW{e['key']}")]
+                found = [m for m in marks if m in text]
+                if found:
+                    res.violation("C32.listing_includes_denied_unit",
+                                  f"GET {route.path} [life cycle {e['hist']}, step {step}, state {e['label']}]: data of "
+                                  f"unit {e['eid']} (requires {sorted(e['unit_roles'])}) returned to user roles "
+                                  f"{sorted(U)}: {found[:3]}", case)
+
+    for step in range(n_steps):
+        touched = []
+        for e in engines:
+            ev = e["events"][step]
+            if ev:
+                apply(e, ev, step)
+                touched.append(e)
+        if step == LIFE_RESTART_STEP:
+            rig.restart_aggregator()
+            if rig.srv.aggregator.get_all_registered_engine_data():
+                raise RuntimeError("rig: emulated restart left engine data behind")
+            res.count("life_restarts")
+        swept = set()
+        for e in touched:
+            # engines whose histories (events and role sets) are identical so far are in the same state: one is swept
+            tk = tuple(e["trace"])
+            if tk in swept:
+                res.count("life_sweeps_skipped_same_history_prefix")
+                continue
+            swept.add(tk)
+            res.count("life_sweeps")
+            sweep(e)
+        listings(step)
 
 
 def _two_sessions(rig: Rig, res: Result, spec_case, plain_get, id_routes, fake, only=None):
